@@ -25,6 +25,9 @@ ASSUMPTIONS = [
     "generated projects also contain hashed Python values built from several input files read at import (tuple / list / positions [0][1],[1][0] of one "
     "container) with edits that exchange the files' contents (equal digit counts: the separator-less join of finding F3 is replayed as its own witness), "
     "an untracked fail-flag file that makes a body raise before writing, and a stream of projects passing a value through a hashed in-memory node",
+    "some histories drive the generated project through the programmatic interface build(tasks=[all task functions]) with tasks that declare "
+    "dependencies as parameter defaults, in @task(kwargs=…), or both on one function; stream nodekinds: dependencies / products declared as Path, "
+    "PathNode, plain UPath and UPath('file://…') under fixed and changing PYTHONHASHSEED (oracle only; findings F61 / F62 classified narrowly)",
 ]
 EDITS = ["write", "write", "revert", "rewrite_same", "touch", "delete_input", "bump", "revert_module", "tamper", "delete_product",
          "rewire", "add_task", "remove_task", "flag", "flag", "swap", "swap"]
@@ -236,11 +239,21 @@ def _memhash_run(proj):
     return obs
 
 
-def memhash_stream(ctx):
+def memhash_prepare(ctx):
+    return [_memhash_project(ctx.rng) for _ in range(ctx.scale(6, 60))]
+
+
+def memhash_execute(projs):
     from concurrent.futures import ThreadPoolExecutor
-    projs = [_memhash_project(ctx.rng) for _ in range(ctx.scale(6, 60))]
     with ThreadPoolExecutor(max_workers=6) as ex:
-        allobs = list(ex.map(_memhash_run, projs))
+        return list(ex.map(_memhash_run, projs))
+
+
+def memhash_stream(ctx, projs=None, allobs=None):
+    if projs is None:
+        projs = memhash_prepare(ctx)
+    if allobs is None:
+        allobs = memhash_execute(projs)
     for proj, obs in zip(projs, allobs):
         edited = any(isinstance(s, list) and s[0] == "edit" for s in proj["steps"])
         ctx.case(["memhash", proj["files"], proj["inputs"], proj["steps"]], edited and len(obs) >= 2,
@@ -314,9 +327,14 @@ def run(ctx):
                 "identical rewrite / touch / delete input, bump / revert module, tamper / delete product, rewire dependency, add / remove task), final plain build; "
                 "oracle = product bytes vs F evaluated from scratch along the DAG; non-trivial = ≥2 builds, ≥1 edit and a later successful build that executed something")
     f11b_witness(ctx)
-    f3_witness(ctx)
-    memhash_stream(ctx)
-    nodekinds.stream(ctx, "C02")
+    from concurrent.futures import ThreadPoolExecutor
+    mh, nk = memhash_prepare(ctx), nodekinds.prepare(ctx)
+    with ThreadPoolExecutor(max_workers=2) as ex:          # the two oracle-only streams build their projects side by side
+        f_mh, f_nk = ex.submit(memhash_execute, mh), ex.submit(nodekinds.execute, nk)
+        f3_witness(ctx)
+        mh_obs, nk_obs = f_mh.result(), f_nk.result()
+    memhash_stream(ctx, mh, mh_obs)
+    nodekinds.stream(ctx, "C02", nk, nk_obs)
     engine.run_campaign(ctx, histories(ctx), oracle, nontrivial=nontrivial, sel_eval=engine.sel_eval, rotate_seeds=True)
 
 
